@@ -218,6 +218,14 @@ def medium_items(ctx):
                     for cname, cline in (("none manual", "cfg comp=0 manual=1"), ("zstd manual", "cfg comp=2 manual=1"),
                                          ("none manual max=5000", "cfg comp=0 manual=1 max=5000")):
                         items.append(("%s/%d %s seg=%dx%d" % (kind, n, cname, k, m), cline, content, ",".join(ops), "32768"))
+    # a configured minimum above the automatic maximum (4 x average = 131072): needs a content longer than that
+    for kind in ("zeros", "rand"):
+        content = gen(kind, 150000 if not thorough else 300000, ctx.seed)
+        for cname, cline in (("none auto min=140000 max=300000", "cfg comp=0 manual=0 max=300000 min=140000"),
+                             ("none auto min=131073 max=131073", "cfg comp=0 manual=0 max=131073 min=131073"),
+                             ("zstd auto min=200000 max=10485760", "cfg comp=2 manual=0 max=10485760 min=200000")):
+            for sg in ("whole", "32768"):
+                items.append(("%s/%d %s seg=%s" % (kind, len(content), cname, sg), cline, content, segmentation(len(content), sg), "32768"))
     return items
 
 
